@@ -20,9 +20,12 @@ def _code(s):
     return "\n".join(_WS.sub(" ", ln).rstrip() for ln in s.split("\n")).strip("\n")
 
 
-def fingerprint(src, active=()):
-    """active: upper-case ids of the rules allowed to fix (decides which freedoms apply)."""
+def fingerprint(src, active=(), loose_code_ws=False):
+    """active: upper-case ids of the rules allowed to fix (decides which freedoms apply).
+    loose_code_ws: compare code content modulo all whitespace (used when the document contains tabs: how
+    a partially consumed tab is expanded inside containers differs between implementations)."""
     env = {}
+    code = (lambda s: "\n".join(_WS.sub("", ln) for ln in s.split("\n")).strip("\n")) if loose_code_ws else _code
     toks = _MD.parse(src if src.endswith("\n") else src + "\n", env)
     lvl = "MD001" in active
     num = "MD029" in active
@@ -55,9 +58,9 @@ def fingerprint(src, active=()):
         elif ty == "hr":
             out.append(("hr",))
         elif ty == "fence":
-            out.append(("code", "*" if sty else "fenced", _t(t.info), _code(t.content)))
+            out.append(("code", "*" if sty else "fenced", _t(t.info), code(t.content)))
         elif ty == "code_block":
-            out.append(("code", "*" if sty else "indented", "", _code(t.content)))
+            out.append(("code", "*" if sty else "indented", "", code(t.content)))
         elif ty == "html_block":
             out.append(("html", _t(t.content)))
         elif ty == "inline":
@@ -102,6 +105,15 @@ def fingerprint(src, active=()):
             merged[-1] = ("txt", merged[-1][1] + n[1])
         else:
             merged.append(n)
+    # adjacent bullet lists are one list once their markers are made consistent (marker characters are
+    # a documented freedom, so is the list boundary that only the marker change created)
+    joined = []
+    for n in merged:
+        if n[0] == "ul" and joined and joined[-1] == ("/list",) and _closes_bullet(joined):
+            joined.pop()
+            continue
+        joined.append(n)
+    merged = joined
     final = []
     for n in merged:
         if n[0] == "txt":
@@ -114,6 +126,35 @@ def fingerprint(src, active=()):
     if refs:
         final.append(("refs", tuple(refs)))
     return final
+
+
+def _closes_bullet(seq):
+    """True if the ('/list',) at the end of seq closes a bullet list."""
+    depth = 0
+    for n in reversed(seq):
+        if n == ("/list",):
+            depth += 1
+        elif n[0] in ("ul", "ol"):
+            depth -= 1
+            if depth == 0:
+                return n[0] == "ul"
+    return False
+
+
+def alnum_chars(fp):
+    """multiset of letters and digits in text, code and raw HTML nodes (list numbers, markers and
+    destinations are not text)."""
+    import collections
+
+    c = collections.Counter()
+    for n in fp:
+        if n[0] in ("txt", "c", "html", "rh"):
+            c.update(ch for ch in n[1] if ch.isalnum())
+        elif n[0] == "code":
+            c.update(ch for ch in n[3] if ch.isalnum())
+        elif n[0] == "img":
+            c.update(ch for ch in n[2] if ch.isalnum())
+    return c
 
 
 def first_difference(a, b):
